@@ -158,21 +158,30 @@ func (b *rawBackend) serve(c net.Conn) {
 			return
 		}
 		if plan != nil && plan.Early {
-			// early answer: the whole response goes out before one byte of the request body is read
+			// early answer: the response starts before one byte of the request body is read; the body is read
+			// while the response is written, and the last byte of the response goes out only after the body
+			// has ended (so a complete response never ends an exchange whose body is still on its way)
 			planMu.Lock()
 			seenBy[tag] = append(seenBy[tag], sr)
 			planMu.Unlock()
-			ok := b.respond(c, req.Method, tag, plan)
 			_ = c.SetReadDeadline(time.Now().Add(120 * time.Second))
-			hsh := sha256.New()
-			n, berr := io.Copy(hsh, req.Body)
-			planMu.Lock()
-			sr.BodyLen, sr.BodySHA = n, hex.EncodeToString(hsh.Sum(nil))
-			if berr != nil {
-				sr.BodyErr = berr.Error()
-			}
-			planMu.Unlock()
+			drained := make(chan error, 1)
+			go func() {
+				hsh := sha256.New()
+				n, berr := io.Copy(hsh, req.Body)
+				planMu.Lock()
+				sr.BodyLen, sr.BodySHA = n, hex.EncodeToString(hsh.Sum(nil))
+				if berr != nil {
+					sr.BodyErr = berr.Error()
+				}
+				planMu.Unlock()
+				drained <- berr
+			}()
+			var berr error
+			ok := b.respond(c, req.Method, tag, plan, func() bool { berr = <-drained; return berr == nil })
 			if !ok || berr != nil {
+				c.Close()
+				<-drained
 				return
 			}
 			continue
@@ -207,14 +216,15 @@ func (b *rawBackend) serve(c net.Conn) {
 		if plan.DelayMs > 0 {
 			time.Sleep(time.Duration(plan.DelayMs) * time.Millisecond)
 		}
-		if !b.respond(c, req.Method, tag, plan) {
+		if !b.respond(c, req.Method, tag, plan, nil) {
 			return
 		}
 	}
 }
 
 // respond writes the planned response by hand; false = the connection must be closed.
-func (b *rawBackend) respond(c net.Conn, method, tag string, p *respPlan) bool {
+// beforeLast (optional) is called before the final byte of a non-empty body; false aborts.
+func (b *rawBackend) respond(c net.Conn, method, tag string, p *respPlan, beforeLast func() bool) bool {
 	var sb strings.Builder
 	fmt.Fprintf(&sb, "HTTP/1.1 %d %s\r\n", p.Status, reason(p.Status))
 	for _, kv := range p.Headers {
@@ -257,6 +267,16 @@ func (b *rawBackend) respond(c net.Conn, method, tag string, p *respPlan) bool {
 		}
 		if k > left {
 			k = left
+		}
+		if beforeLast != nil {
+			if left == 1 {
+				if !beforeLast() {
+					return false
+				}
+				beforeLast = nil
+			} else if k >= left {
+				k = left - 1
+			}
 		}
 		g.Fill(buf[:k])
 		var err error
